@@ -245,6 +245,7 @@ def static_events(case, t, k, sim, rng, want, build_opts=None, solve_opts=None, 
     extent = max(1e-300, max(abs(z1 - z2) for z1 in list(t["pos"].values())[:40] for z2 in list(t["pos"].values())[:40]))
     offs = math.hypot(sim.tx, sim.ty) / (extent * sim.scale)
     extra = {"equilibrium": bool(equilibrium and tolT is not None), "tolT": fx(tolT) if tolT else 0,
+             "consistent_truth": bool(equilibrium),
              "offset_sizes": int(min(offs, 10 ** 6))}
     if extra_env:
         extra.update(extra_env)
@@ -288,9 +289,11 @@ def static_events(case, t, k, sim, rng, want, build_opts=None, solve_opts=None, 
             forsys.solve_stress(when=0, **kwargs)
         x = forsys.forces[0]
         xs = [float(x[i]) for i in range(len(x))]
-        finite = all(math.isfinite(v) and abs(v) < 1900 for v in xs)
+        finite = all(math.isfinite(v) for v in xs)
+        in_range = finite and all(abs(v) < 1900 for v in xs)
         sev["finite"] = finite
-        sev["x"] = [fx(v) if finite else 0 for v in xs]
+        sev["in_range"] = in_range          # fixed-point range of the oracle; out of range = not judged
+        sev["x"] = [fx(v) if in_range else 0 for v in xs]
         sev["b"] = [[0, 0] for _ in bev["fm"]["rows"]]
         sev["warned"] = any("Numerically solving" in str(i.message) for i in w)
     except Exception as exc:
@@ -577,7 +580,7 @@ def dynamic_events(case, spec, rng):
         if tolD > 0.15:
             tolD = None
     extent_e = extent * sim.scale
-    extra = {"equilibrium": False, "tolT": 0, "dynamic": tolD is not None, "tolD": fx(tolD) if tolD else 0,
+    extra = {"equilibrium": False, "tolT": 0, "dynamic": tolD is not None, "tolD": fx(tolD) if tolD else 0, "consistent_truth": True,
              "offset_sizes": int(min(math.hypot(sim.tx, sim.ty) / extent_e, 10 ** 6)),
              "nframes": nframes, "when": tau}
     evs.append(env_event(case, t, k, sim, o["info"], vidx, cell_of_model, spec["want"], extra, frame=frame))
@@ -607,10 +610,12 @@ def dynamic_events(case, spec, rng):
         forsys.solve_stress(when=tau, **kwargs)
         x = forsys.forces[tau]
         xs = [float(x[i]) for i in range(len(x))]
-        finite = all(math.isfinite(v) and abs(v) < 1900 for v in xs) and bool(np.all(np.abs(b3) < 1900))
+        finite = all(math.isfinite(v) for v in xs) and bool(np.all(np.isfinite(b3)))
+        in_range = finite and all(abs(v) < 1900 for v in xs) and bool(np.all(np.abs(b3) < 1900))
         sev["finite"] = finite
-        sev["x"] = [fx(v) if finite else 0 for v in xs]
-        sev["b"] = [[fx(b3[r["r"]]), fx(b3[r["r"] + 1])] if finite else [0, 0] for r in bev["fm"]["rows"]]
+        sev["in_range"] = in_range
+        sev["x"] = [fx(v) if in_range else 0 for v in xs]
+        sev["b"] = [[fx(b3[r["r"]]), fx(b3[r["r"] + 1])] if in_range else [0, 0] for r in bev["fm"]["rows"]]
         sev["warned"] = False
     except Exception as exc:
         import traceback
